@@ -453,6 +453,10 @@ func (r *rewriter) selectStmt(v *ast.SelectStmt) []ast.Stmt {
 	hd := "false"
 	if hasDefault {
 		hd = "true"
+	} else {
+		// keeps the switch a terminating statement when every clause terminates, as the select was
+		clauses = append(clauses, &ast.CaseClause{List: nil, Body: []ast.Stmt{&ast.ExprStmt{X: &ast.CallExpr{Fun: ast.NewIdent("panic"),
+			Args: []ast.Expr{&ast.BasicLit{Kind: token.STRING, Value: strconv.Quote("simrt: select returned an impossible index")}}}}}})
 	}
 	call := r.rt("Select", append([]ast.Expr{ast.NewIdent(hd)}, cases...)...)
 	out := append(pre,
